@@ -151,3 +151,15 @@ reg("C10",
     explanation="enums with 1/2/3 values and unions with 0/1/2/3 variants (one named `unknown`) plus one union per leaf shape, default and exhaustive configuration; every listed value/variant document, unlisted enum names over [A-Z0-9_] up to the length bound and multi-word names, ill-formed names, unlisted variant names x 17 JSON payloads in both member orders; client, server and `any` paths",
     level_text="Bounded exhaustive exploration of names and payloads on the generated code of the current tree, with the statement's rule as oracle (unlisted => preserved and classified unknown unless exhaustive; listed => itself; exhaustive => exactly the unlisted rejected).",
     level_note="Trusted: Debug output of the generated types to read the classification (prefix of the unknown variant), JSON equality for 'equivalent document'. An enum value named UNKNOWN and an empty enum are not valid Conjure and are not enumerated.")
+
+reg("C14",
+    packages=["sweeps", "cgorder"], level="model_checking", engine="E4 sweeps + E2 genharness",
+    parts=[
+        {"packages": ["sweeps"], "bin": "sweeps"},
+        {"packages": ["cgorder"], "cmd": ["python3", "engines/e2/e2.py"]},
+    ],
+    technique="exhaustive enumeration of ordered pairs and triples over bounded value sets of the double wrapper, the DoubleOps compositions and the compiled generated types containing doubles, checked against the order / equality / hash laws",
+    design_ref="DESIGN.md §3 C14",
+    explanation="part 0 (runtime): DoubleKey and DoubleOps over f64 / Option / Vec / BTreeMap compositions through educe-derived structs and a union-like enum built exactly like generated code, with 9 f64 bit patterns incl. three NaNs; part 1 (generated): every generated object / union / alias of the E2 type space that contains a double (directly, in optionals, lists, sets, map keys/values, aliases, nested objects), up to 13 values per type from JSON; all ordered pairs and triples",
+    level_text="Exhaustive checking of the algebraic laws (reflexive, eq <=> cmp Equal, antisymmetric, transitive, NaN greatest, eq => same hash, partial_cmp and operators agree with cmp, set/map lookups, deserialize-twice equality) over every pair and triple of a bounded value set per type, on the real runtime code and on the compiled output of the real generator.",
+    level_note="Trusted: the law checker (vcommon::laws); values outside the alphabet behave like their class representative. NaN payload/sign differences are only reachable in the runtime part.")
